@@ -8,6 +8,7 @@ interleaving of any number of goroutines" is "any sequence".
 -/
 import ConfModel.Lemmas.Handoff
 import ConfModel.Lemmas.HandoffGlue
+import ConfModel.Lemmas.HandoffRetry
 namespace ConfModel.Props.C16
 open ConfModel ConfModel.Handoff
 
@@ -470,52 +471,43 @@ theorem handler_delivers_once (acts : List Act) : (run acts).delivered.length = 
   rw [close_of_not_live _ _ (by rw [close_of_not_live _ _ h1.1]; exact h1.1), close_of_not_live _ _ h1.1]
   exact h1.2
 
-/-- A trace handed over by the end of the response (`tryFinish`: the handler returned, panicked,
-or a write failed) is final: what its consumer sees when everything is over is what it saw at
-the moment of completion — the trailers are copied in before the completing event is added,
-and the response object is never written to afterwards.  For every handler script. -/
-theorem handler_trace_final_of_resp_end (acts : List Act) :
-    ∀ d ∈ (run acts).delivered, d.snap.closer.isRespEnd = true → viewAtEnd (run acts) d = d.snap :=
-  fun d hd hr => (inv_run acts d hd hr).2.2
+/-- The trace handed over is final, for EVERY handler script — including operations that are
+ended early by the request side (`readErr`, `closeReq`) or by cancellation at any point, before
+or after the response has started: what the consumer of a delivered trace sees when everything
+is over is what it saw at the moment of completion.  Completion is the last write: the trailers
+are copied into the response object only while the builder still holds the trace
+(`builder.whileBuilding`, the repair of finding F28), and after the hand-off nothing the trace
+refers to is written. -/
+theorem handler_trace_final (acts : List Act) :
+    ∀ d ∈ (run acts).delivered, viewAtEnd (run acts) d = d.snap :=
+  inv_fin (run acts) (inv_run acts)
 
-/-- FULL statement wanted: `∀ acts, isFinal (run acts) = true` — the trace handed over is final
-for every handler script.  It does NOT hold for the code as it is (witness below, finding F28):
-when the operation is ended early by the request side or by cancellation *after* the response
-has started, `tryFinish` still runs `setTrailers` later, and that writes into the
-`http.Response` the handed-over trace points to.  Proved: without such an early end the one
-trace is handed over by the end of the response and is final. -/
-theorem handler_trace_final_partial (acts : List Act) (h : ∀ a ∈ acts, isEarlyEnd a = false) :
-    isFinal (run acts) = true ∧
-    ∃ d, (run acts).delivered = [d] ∧ d.snap.closer.isRespEnd = true := by
-  have hheld := held_runActs acts init h (Or.inl ⟨rfl, rfl, rfl⟩)
-  have h1 := held_tryFinish (if (runActs init acts).2 = true then Closer.respEndPanic else Closer.respEnd)
-    (by split <;> rfl) _ hheld
-  have hrun : run acts = tryFinish (if (runActs init acts).2 = true then Closer.respEndPanic else Closer.respEnd)
-      (runActs init acts).1 := by
-    unfold run finish
-    rw [close_of_not_live _ _ (by rw [close_of_not_live _ _ h1.1]; exact h1.1), close_of_not_live _ _ h1.1]
-  obtain ⟨hl, d, hd, hr⟩ := h1
-  rw [← hrun] at hd
-  refine ⟨?_, d, hd, hr⟩
-  have hfin := handler_trace_final_of_resp_end acts d (by rw [hd]; simp) hr
+/-- … in the form the check evaluates: the list of deliveries as seen at the end equals the
+list of copies taken at completion, and there is exactly one. -/
+theorem handler_trace_is_final (acts : List Act) :
+    isFinal (run acts) = true ∧ (run acts).delivered.length = 1 := by
+  refine ⟨?_, handler_delivers_once acts⟩
   unfold isFinal finalView atCompletion
-  rw [hd]
-  simp [hfin]
+  have h := handler_trace_final acts
+  have : (run acts).delivered.map (viewAtEnd (run acts)) = (run acts).delivered.map (·.snap) :=
+    List.map_congr_left h
+  simp [this]
 
-/-- non-vacuity: a gRPC-style handler: announced and prefixed trailers, set after the body -/
+/-- a gRPC-style handler: announced and prefixed trailers, set after the body, are in the trace
+when it is handed over -/
 example :
-    let acts : List Act := [.declare ["Grpc-Status"], .write true, .set (.plain "Grpc-Status") "0",
-      .set (.pre "Grpc-Message") "fine"]
-    (∀ a ∈ acts, isEarlyEnd a = false) ∧
-    atCompletion (run acts) = [⟨.respEnd, some ⟨200, [(.plain "Trailer", ["Grpc-Status"])],
+    atCompletion (run [.declare ["Grpc-Status"], .write true, .set (.plain "Grpc-Status") "0",
+      .set (.pre "Grpc-Message") "fine"]) = [⟨.respEnd, some ⟨200, [(.plain "Trailer", ["Grpc-Status"])],
       [("Grpc-Message", ["fine"]), ("Grpc-Status", ["0"])]⟩⟩] := by decide
 
-/-- the witness of finding F28: the request body is closed after the response has started (the
-trace is completed there), the handler then sets a trailer and returns — the handed-over trace
-changes afterwards -/
-theorem handler_trace_not_final_witness :
-    isFinal (run [.declare ["X-T"], .writeHeader 200, .closeReq, .set (.plain "X-T") "1"]) = false := by
-  decide
+/-- the former witness of finding F28 (the request body is closed after the response has
+started, the handler then sets a trailer and returns): the trace completed by the early end keeps
+the trailers it had then.  Before the repair (`tryFinish` calling `setTrailers` unconditionally)
+`isFinal` of this run was `false`: the view at the end had `X-T = ["1"]`. -/
+example :
+    let s := run [.declare ["X-T"], .writeHeader 200, .closeReq, .set (.plain "X-T") "1"]
+    isFinal s = true ∧
+    finalView s = [⟨.reqEndErr, some ⟨200, [(.plain "Trailer", ["X-T"])], [("X-T", [])]⟩⟩] := by decide
 
 /-- `WriteHeader` seeds the trace's trailers with exactly the announced names -/
 theorem writeHeader_announces (st : Nat) (s : St) (h : s.started = false) (n : String) :
@@ -526,17 +518,19 @@ theorem writeHeader_announces (st : Nat) (s : St) (h : s.started = false) (n : S
 
 /-- … and when the response ends, the trailers copied into the trace are exactly what belongs to
 the response as trailers (`trailerSpec`: announced names with their plain and prefixed values,
-other names through their prefixed entry only), read from the header map as it is then. -/
+other names through their prefixed entry only), read from the header map as it is then — when
+the builder still holds the trace (otherwise the trace is gone and nothing is written). -/
 theorem tryFinish_trailers_complete (c : Closer) (s : St) (declared : List String)
-    (hf : s.finished = false) (hn : NodupKeys s.hdr)
+    (hf : s.finished = false) (hl : s.live = true) (hn : NodupKeys s.hdr)
     (hd : ∀ n, ((writeHeader 200 s).resp.trailer.lookup n).isSome = declared.contains n) (n : String) :
     (tryFinish c s).resp.trailer.lookup n = trailerSpec declared s.hdr n := by
   have hwh : (writeHeader 200 s).hdr = s.hdr := by unfold writeHeader; split <;> rfl
+  have hl' : (writeHeader 200 s).live = true := by rw [writeHeader_live]; exact hl
   have : (tryFinish c s).resp.trailer = setTrailers (writeHeader 200 s).resp.trailer s.hdr := by
     unfold tryFinish
     simp only [hf, Bool.false_eq_true, if_false]
-    unfold close
-    split <;> simp [hwh]
+    unfold close markFinished whileBuilding
+    simp [hl', hwh]
   rw [this]
   exact setTrailers_lookup _ _ declared n hn (hd n)
 
@@ -556,12 +550,85 @@ theorem handler_hdr_nodup : ∀ (acts : List Act) (s : St), NodupKeys s.hdr → 
   | .closeReq :: as, s, h => handler_hdr_nodup as _ (nodup_step s _ h)
   | .cancel :: as, s, h => handler_hdr_nodup as _ (nodup_step s _ h)
 
-example : NodupKeys init.hdr ∧ init.finished = false := ⟨List.nodup_nil, rfl⟩
+example : NodupKeys init.hdr ∧ init.finished = false ∧ init.live = true := ⟨List.nodup_nil, rfl, rfl⟩
 
 example : trailerSpec ["X-T"] [(.plain "X-T", ["a"]), (.pre "X-T", ["b"]), (.pre "X-P", ["p"]), (.plain "X-Q", ["q"])] "X-T" = some ["a", "b"] ∧
     trailerSpec ["X-T"] [(.plain "X-T", ["a"]), (.pre "X-P", ["p"]), (.plain "X-Q", ["q"])] "X-P" = some ["p"] ∧
     trailerSpec ["X-T"] [(.plain "X-T", ["a"]), (.pre "X-P", ["p"]), (.plain "X-Q", ["q"])] "X-Q" = none := by decide
 
 end handler
+
+/-! ### exactly-once completion on an HTTP/2 connection, for every Collector
+(`http2RetryCollector` between the per-stream builders of `tracingHTTP2Conn` and the real
+collector; `cancel` runs from `cancelAll` on every failed Read, failed Write and on Close) -/
+section retry
+open H2 H2Teardown
+
+/-- For EVERY sequence of calls on the retry collector — traces held back (`Complete` with a
+retryable error), retries (`newAttempt`), timers (`timesUp`), tear-downs (`cancel`), in any order
+and multiplicity — a trace reaches the downstream collector at most as often as it was completed
+upstream: an operation whose builder completes once (builder_once) is delivered at most once,
+whatever the collector downstream is. -/
+theorem retry_at_most_once (ops : List COp) (t : Trace) :
+    (Coll.init.run ops).out.count t ≤ completions t ops := by
+  have := count_run ops Coll.init t
+  simp only [Coll.init, List.count_nil, valuesCount, List.map_nil] at this ⊢
+  omega
+
+/-- … in particular through every script of a traced connection (`lowerAll`: the calls the
+connection makes on its retry collector for streams opened, ended, refused, reset, cut off by
+GOAWAY, and for any sequence of failed reads, failed writes and closes) -/
+theorem conn_at_most_once (steps : List Step) (t : Trace) :
+    (deliveries steps).count t ≤ completions t (lowerAll Conn.init steps) :=
+  retry_at_most_once _ t
+
+/-- `cancel` is idempotent: a second tear-down (the read loop failed, then the owner closes the
+connection) delivers nothing again … -/
+theorem retry_cancel_idempotent (c : Coll) : c.cancel.cancel = c.cancel := cancel_cancel c
+
+/-- … nor does any further number of them. -/
+theorem retry_cancel_any_multiplicity (c : Coll) (k : Nat) :
+    (c.run (COp.cancel :: List.replicate k COp.cancel)) = c.cancel := by
+  show (c.step .cancel).run _ = _
+  exact run_cancels c k
+
+/-- Exactly once: a trace that is held back when the connection is torn down is delivered by
+the first `cancel` and — whatever follows: more tear-downs, timers, retries, other completions,
+anything but a second completion of that very trace upstream — stays delivered exactly once. -/
+theorem retry_teardown_exactly_once (c : Coll) (hc : WOK c.waiting) (t : Trace)
+    (hheld : findName t.name c.waiting = some t) (hfresh : c.out.count t = 0)
+    (rest : List COp) (hrest : completions t rest = 0) :
+    (c.run (COp.cancel :: rest)).out.count t = 1 := by
+  have h1 : c.cancel.out.count t = 1 := by
+    have := valuesCount_held t c.waiting hc hheld
+    simp only [Coll.cancel, List.count_append, hfresh, valuesCount] at this ⊢
+    omega
+  have hup := count_run rest c.cancel t
+  have hlo := out_count_mono_run rest c.cancel t
+  have hv : valuesCount t c.cancel.waiting = 0 := by simp [Coll.cancel, valuesCount]
+  show ((c.step .cancel).run rest).out.count t = 1
+  have e : c.step .cancel = c.cancel := rfl
+  rw [e]
+  omega
+
+/-- non-vacuity: stream 1 of test `a` is refused and never retried; the read loop fails, a write
+fails, the owner closes the connection twice — one delivery -/
+example :
+    let t := mkTrace "a" 1 (.stream 1 7)
+    let c := Coll.init.run [.newAttempt "a", .complete t]
+    WOK c.waiting ∧ findName t.name c.waiting = some t ∧ c.out.count t = 0 ∧
+    (deliveries [.opn 1 "a", .rst 1 7 false, .teardown, .teardown, .teardown, .teardown]) = [t] := by
+  refine ⟨?_, by decide, by decide, by decide⟩
+  exact WOK_run _ Coll.init trivial
+
+/-- refused and retried: the refused attempt is dropped for good, the retry is delivered once;
+GOAWAY(NO_ERROR) holds back the streams above its limit until the tear-down -/
+example :
+    (deliveries [.opn 1 "a", .rst 1 7 false, .opn 3 "a", .respEnd 3, .teardown, .teardown]).map (·.req) =
+      [[("id", "3")]] ∧
+    (deliveries [.opn 1 "a", .opn 3 "b", .goaway 1 0, .teardown, .teardown, .timers]).map (·.req) =
+      [[("id", "1")], [("id", "3")]] := by decide
+
+end retry
 
 end ConfModel.Props.C16
